@@ -190,6 +190,15 @@ example :
     s.loop.log = [[200], [16, 2], [5]] ∧ s.seenFrom 0 = [upsert 1, delete 2] ∧ s.seenFrom 1 = [upsert 8] ∧
     q0.filterMap Req.ev = [2, 5] ∧ q1.filterMap Req.ev = [16] := by decide
 
+/-- Requeue on error (controller-runtime re-invokes `Reconcile` for a request whose Get failed — whatever the
+error wraps, `context.DeadlineExceeded` included — until it returns nil) is a run of entries with the same id:
+the failed attempts are recorded as `failed`, and the request still ends in exactly one event. -/
+example :
+    let q : List Req := [⟨4, true, .error⟩, ⟨4, true, .error⟩, ⟨4, true, .found⟩, ⟨5, true, .error⟩, ⟨5, true, .notFound⟩]
+    let s := run false (Sys.init [] [q]) [.begin 0, .begin 0, .begin 0, .deliver 0, .begin 0, .begin 0, .deliver 0]
+    q.filterMap Req.ev = [upsert 4, delete 5] ∧ s.seenFrom 0 = [upsert 4, delete 5] ∧
+    s.recs.map (·.failed) = [[4, 4, 5]] ∧ s.quiet = true := by decide
+
 /-- a parked reconciler, context live: `parked_until_taken`'s hypotheses are satisfiable -/
 example :
     let s := run false (Sys.init [] [q0, q1]) [.begin 0, .begin 1, .begin 1]
